@@ -218,6 +218,33 @@ CLAIMED = {
              'cache being written before it is read for every atom is the loop-carried fact used by C04.',
         technique='exact rational/trigonometric normal forms; per-iteration loop snapshots; symmetry oracle',
     ),
+    'C16': dict(
+        category='other',
+        text='Whole-library effect analysis (~200 functions, 1 200+ writes): every write is rooted in a local, fresh heap, an '
+             'out-parameter or - only in the three documented crystal mutators - the built-in crystal array (syntactic roots '
+             'plus alias-resolved store events of the abstract interpreter); pointers into the data tables are never handed to '
+             'a callee that writes through that parameter; no static locals; XRayInit is empty; no process-global service '
+             '(exit, chdir, environment, rand, strtok, stdout, freopen, ...) reachable from any of the 188 exported functions '
+             '(call graph incl. constant function tables); stderr only from the frozen diagnostic set; setlocale only in the '
+             'query-copy-set-restore bracket without an exit inside; numeric arrays handed out are filled or zero-allocated.',
+        design_ref='DESIGN.md section 2, C16',
+        note='Purity is decided as absence of shared mutable state and of process-global services (sufficient condition). '
+             'Bit-identical results across processes additionally rely on determinism of libm and are not separately decided. '
+             'Fixed on this tree: the locale restore bug of CompoundParser (F6).',
+        technique='effect analysis: write-target classification, who-may-call over the call graph, typestate bracket for setlocale',
+    ),
+    'C17': dict(
+        category='other',
+        text='Race freedom by absence of sharing, decided over the transitive call graph of the 185 thread-safe entry points '
+             '(everything except the three documented crystal mutators): no reachable function has a static local or writes a '
+             'file-scope object; no mutator is reachable; no function that the glibc manual marks MT-Unsafe is reachable '
+             '(frozen table with the manual\'s annotation; strerror allowed with reason); the error mechanism stores only through '
+             'the caller\'s own slot.',
+        design_ref='DESIGN.md section 2, C17',
+        note='A sufficient static condition; schedules are not explored. Known finding F6b: CompoundParser -> setlocale is '
+             'reachable from 26 thread-safe entry points (all compound functions).',
+        technique='effect analysis + who-may-call over the call graph with a frozen MT-Unsafe table',
+    ),
 }
 
 NOT_YET = {}
